@@ -114,7 +114,11 @@ impl Default for SuspenseTaskGuard {
 impl Drop for SuspenseTaskGuard {
     fn drop(&mut self) {
         if let Some(mut scope) = self.scope {
-            scope.tasks_remaining -= 1;
+            // The scope owning the counter may already be disposed when the executor drops a
+            // cancelled task.
+            if scope.tasks_remaining.is_alive() {
+                scope.tasks_remaining -= 1;
+            }
         }
     }
 }
